@@ -28,8 +28,13 @@ func main() {
 		needsRace = flag.String("needs-race", "", "print whether the property wants the race build")
 		list      = flag.Bool("list", false, "list properties")
 		verifDir  = flag.String("verif", "/verif", "verif directory")
+		ufsServe  = flag.String("ufs-serve", "", "serve this directory with ufs over -sock (traced child of C15)")
+		sock      = flag.String("sock", "", "unix socket for -ufs-serve")
 	)
 	flag.Parse()
+	if *ufsServe != "" {
+		os.Exit(props.ServeUFS(*ufsServe, *sock))
+	}
 	if *list {
 		for _, id := range props.IDs() {
 			fmt.Println(id)
